@@ -22,6 +22,13 @@ structure Env where
   syncedThreshold : Nat
   maxHeaders : Nat
   numTransactions : Nat
+  /-- how many iterations of the loop of `insert_next_block_headers` fit under
+      `MAX_INSTRUCTIONS_THRESHOLD` (30e9) in this message: the loop executes
+      `if inc_performance_counter() > MAX_INSTRUCTIONS_THRESHOLD { break; }` before it looks at a
+      blob, so with counter value `c` at loop entry and `st` per reading, iteration `i` (1-based)
+      runs iff `c + i * st ≤ 30e9`. The counter never decreases within a message, so the
+      iterations that run are an initial segment. -/
+  headerSlots : Nat := 1000000000
 
 namespace State
 
@@ -117,15 +124,16 @@ def insertBlock (env : Env) (s : State) (b : Block) : InsertResult :=
         | .ok u => .ok { s with unstable := u }
         | _ => .trap
 
-/-- `state::insert_next_block_headers`; processing stops at the first header that is garbage,
-    invalid or not connected (already stored headers are skipped) -/
-def insertNextHeaders (env : Env) (s : State) : List String → Option State
+/-- the body of the loop of `state::insert_next_block_headers` run over every blob of the list
+    (no instruction check); processing stops at the first header that is garbage, invalid or not
+    connected (already stored headers are skipped) -/
+def insertNextHeadersAll (env : Env) (s : State) : List String → Option State
   | [] => some s
   | raw :: rest =>
     match env.dec.header raw with
     | none => some s
     | some h =>
-      if (s.unstable.next.getHeader h.hash).isSome then insertNextHeaders env s rest
+      if (s.unstable.next.getHeader h.hash).isSome then insertNextHeadersAll env s rest
       else
         match validationContextWithNext s (hdrOfNext h) with
         | .error _ => some s
@@ -136,7 +144,15 @@ def insertNextHeaders (env : Env) (s : State) : List String → Option State
           | .ok =>
             match s.unstable.insertNextHeader h s.stableHeight with
             | none => some s
-            | some u => insertNextHeaders env { s with unstable := u } rest
+            | some u => insertNextHeadersAll env { s with unstable := u } rest
+
+/-- `state::insert_next_block_headers`: the instruction check comes first in every iteration
+    (before decoding, so an undecodable, already stored or refused blob uses up an iteration like
+    any other) and ends the loop for good, so exactly the first `env.headerSlots` blobs are looked
+    at; the remaining announced headers are dropped silently. `Props/HeaderSlots.lean` shows that
+    this is the loop with an explicit countdown. -/
+def insertNextHeaders (env : Env) (s : State) (blobs : List String) : Option State :=
+  insertNextHeadersAll env s (blobs.take env.headerSlots)
 
 /-- the loop of `maybe_process_response` over the blocks of a complete response:
     `(state, stopped early?)`; `none` = trap -/
